@@ -44,6 +44,10 @@ type opResult struct {
 	rev      statedb.Revision // revision of the object
 	err      error
 	id       uint64 // the "pending" identifier
+
+	// errorID is the identifier of the error status this reconciler committed
+	// for the object before retrying it (0 if this is not a retry).
+	errorID uint64
 }
 
 func (incr *incremental[Obj]) run(ctx context.Context, txn statedb.ReadTxn, changes iter.Seq2[statedb.Change[Obj], statedb.Revision]) (errs []error, lastRev statedb.Revision, retryLowWatermark statedb.Revision) {
@@ -96,7 +100,7 @@ func (incr *incremental[Obj]) single(ctx context.Context, txn statedb.ReadTxn, c
 		// Clear retries as the object has changed.
 		incr.retries.Clear(obj)
 
-		incr.processSingle(ctx, txn, obj, rev, change.Deleted)
+		incr.processSingle(ctx, txn, obj, rev, change.Deleted, 0)
 		incr.numReconciled++
 		if incr.numReconciled >= incr.config.IncrementalRoundSize {
 			break
@@ -192,13 +196,13 @@ func (incr *incremental[Obj]) processRetries(ctx context.Context, txn statedb.Re
 			break
 		}
 		incr.retries.Pop()
-		incr.processSingle(ctx, txn, item.object.(Obj), item.rev, item.delete)
+		incr.processSingle(ctx, txn, item.object.(Obj), item.rev, item.delete, item.errorStatusID)
 		incr.numReconciled++
 	}
 	return incr.retries.LowWatermark()
 }
 
-func (incr *incremental[Obj]) processSingle(ctx context.Context, txn statedb.ReadTxn, obj Obj, rev statedb.Revision, delete bool) {
+func (incr *incremental[Obj]) processSingle(ctx context.Context, txn statedb.ReadTxn, obj Obj, rev statedb.Revision, delete bool, errorID uint64) {
 	start := time.Now()
 
 	var (
@@ -219,7 +223,7 @@ func (incr *incremental[Obj]) processSingle(ctx context.Context, txn statedb.Rea
 		op = OpUpdate
 		err = incr.config.Operations.Update(ctx, txn, rev, obj)
 		status := incr.config.GetObjectStatus(obj)
-		incr.results[obj] = opResult{original: orig, id: status.ID, rev: rev, err: err}
+		incr.results[obj] = opResult{original: orig, id: status.ID, rev: rev, err: err, errorID: errorID}
 	}
 	incr.metrics.ReconciliationDuration(incr.moduleID, incr.name, op, time.Since(start))
 
@@ -261,8 +265,13 @@ func (incr *incremental[Obj]) commitStatus() (numErrors int) {
 			// The limitation of this approach is that we cannot support the reconciler
 			// modifying the object during reconciliation as the following will forget
 			// the changes.
+			//
+			// The same applies to a retried object that still carries the error status
+			// this reconciler committed for it: only the status of another reconciler
+			// has changed since, so the result of the retry applies to it.
 			currentStatus := incr.config.GetObjectStatus(current)
-			if currentStatus.Kind == StatusKindPending && currentStatus.ID == result.id {
+			if (currentStatus.Kind == StatusKindPending && currentStatus.ID == result.id) ||
+				(currentStatus.Kind == StatusKindError && result.errorID != 0 && currentStatus.ID == result.errorID) {
 				current = incr.config.CloneObject(current)
 				current = incr.config.SetObjectStatus(current, status)
 				_, _, err = incr.table.Insert(wtxn, current)
@@ -274,6 +283,7 @@ func (incr *incremental[Obj]) commitStatus() (numErrors int) {
 			// successfully (object had not changed). Queue the retry for the object.
 			newRevision := incr.table.Revision(wtxn)
 			incr.retries.Add(result.original.(Obj), newRevision, result.rev, false, result.err)
+			incr.retries.SetErrorStatusID(result.original.(Obj), status.ID)
 		}
 	}
 	return
